@@ -697,14 +697,17 @@ int yr_arena_save_stream(YR_ARENA* arena, YR_STREAM* stream)
   }
 
   // Now that all relocatable pointers are converted to references, write the
-  // buffers.
+  // buffers. From this point on a failing write must not return right away:
+  // the pointers must be restored first or the arena would become unusable.
+  int result = ERROR_SUCCESS;
+
   for (uint32_t i = 0; i < arena->num_buffers; ++i)
   {
     YR_ARENA_BUFFER* b = &arena->buffers[i];
 
-    if (b->used > 0)
+    if (b->used > 0 && result == ERROR_SUCCESS)
       if (yr_stream_write(b->data, b->used, 1, stream) != 1)
-        return ERROR_WRITING_FILE;
+        result = ERROR_WRITING_FILE;
   }
 
   // Write the relocation list and restore the pointers back.
@@ -719,8 +722,9 @@ int yr_arena_save_stream(YR_ARENA* arena, YR_STREAM* stream)
 
     // Write the relocation entry, which consists in a reference to the place
     // where the pointer that needs to be relocated is stored.
-    if (yr_stream_write(&ref, sizeof(ref), 1, stream) != 1)
-      return ERROR_WRITING_FILE;
+    if (result == ERROR_SUCCESS &&
+        yr_stream_write(&ref, sizeof(ref), 1, stream) != 1)
+      result = ERROR_WRITING_FILE;
 
     // Move the reference that is going to be replaced by the corresponding
     // pointer to the ref variable. Notice that ref is being reused for a
@@ -742,5 +746,5 @@ int yr_arena_save_stream(YR_ARENA* arena, YR_STREAM* stream)
     reloc = reloc->next;
   }
 
-  return ERROR_SUCCESS;
+  return result;
 }
